@@ -76,9 +76,18 @@ def executor_class(backend):
     raise ValueError(backend)
 
 
-def build_ast(query):
-    """query: {"steps": [...], "md": [[pos, dict], ...], "wire": "ast"|"qastle"}"""
+def build_ast(query, stream_cache=None):
+    """query: {"steps": [...], "md": [[pos, dict], ...], "wire": "ast"|"qastle"}
+
+    stream_cache (dict): ObjectStream objects of this process keyed by their step prefix. With it, queries are
+    built the way a user builds them from a common base (`base = ds.Where(...); q1 = base.Select(..); q2 = base.Select(..)`)
+    or runs the same query object twice: the ASTs *share node objects*, which the executor rewrites in place."""
+    import json as _json
     from func_adl import EventDataset
+
+    if query.get("wire") == "qastle":
+        # the query arrives as text from another process: nothing can be shared with earlier queries
+        stream_cache = None
 
     class _capture(EventDataset):
         async def execute_result_async(self, a, title):
@@ -88,14 +97,26 @@ def build_ast(query):
     # metadata goes in at its position, later positions first so indices stay valid
     for pos, md in sorted(query.get("md", []), key=lambda p: -p[0]):
         steps.insert(min(pos, len(steps)), ["MetaData", md])
-    s = _capture()
+    key = ()
+    if stream_cache is not None and key in stream_cache:
+        s = stream_cache[key]
+    else:
+        s = _capture()
+        if stream_cache is not None:
+            stream_cache[key] = s
     for op, arg in steps:
+        key = key + (_json.dumps([op, arg], sort_keys=True),)
+        if stream_cache is not None and key in stream_cache:
+            s = stream_cache[key]
+            continue
         if op == "AsROOTTTree":
             s = s.AsROOTTTree(arg[0], arg[1], arg[2])
         elif op == "MetaData":
             s = s.MetaData(arg)
         else:
             s = getattr(s, op)(arg)
+        if stream_cache is not None:
+            stream_cache[key] = s
     a = s.value()
     if query.get("wire") == "qastle":
         import qastle
@@ -294,6 +315,34 @@ class AbortPlan:
         sys.settrace(None)
 
 
+class TemplateDirMissing:
+    """While armed, the template directory of the package cannot be found (os.path.isdir says no): the
+    installation is incomplete / the working directory is wrong. The translation fails in its write phase."""
+
+    def __init__(self):
+        self.fired = 0
+
+    def __enter__(self):
+        self._isdir = os.path.isdir
+        real = self._isdir
+
+        def isdir(p):
+            try:
+                sp = os.fspath(p)
+            except TypeError:
+                return real(p)
+            if "func_adl_xAOD/template" in str(sp):
+                self.fired += 1
+                return False
+            return real(p)
+
+        os.path.isdir = isdir
+        return self
+
+    def __exit__(self, *a):
+        os.path.isdir = self._isdir
+
+
 # ---------------------------------------------------------------- one translation
 
 def _chain_has(exc, cls):
@@ -306,7 +355,7 @@ def _chain_has(exc, cls):
     return False
 
 
-def translate(exe, query, outdir, ld=False, io_plan=None, abort_plan=None):
+def translate(exe, query, outdir, ld=False, io_plan=None, abort_plan=None, extra_seam=None, stream_cache=None):
     """Run one translation with the real executor. Returns a JSON-able outcome."""
     from pathlib import Path
     n0 = len(_generated)
@@ -314,7 +363,7 @@ def translate(exe, query, outdir, ld=False, io_plan=None, abort_plan=None):
     info = None
     err = None
     try:
-        a = build_ast(query)
+        a = build_ast(query, stream_cache)
     except Exception as e:  # a query the func_adl front end itself refuses
         return {"outcome": "raise", "type": "frontend:" + type(e).__name__, "msg": str(e)[:300], "oserror": False,
                 "lines": 0, "io_calls": []}
@@ -323,6 +372,8 @@ def translate(exe, query, outdir, ld=False, io_plan=None, abort_plan=None):
         seams.append(io_seam(io_plan))
     if abort_plan is not None:
         seams.append(abort_plan)
+    if extra_seam is not None:
+        seams.append(extra_seam)
     try:
         for s in seams:
             s.__enter__()
@@ -336,7 +387,11 @@ def translate(exe, query, outdir, ld=False, io_plan=None, abort_plan=None):
                 s.__exit__(None, None, None)
     except BaseException as e:  # noqa - injected KeyboardInterrupt / MemoryError are part of the model
         err = e
-    names = _generated[n0:] + import_time_names()
+    # every name ever generated in this process: a query object translated for the second time legitimately carries
+    # names generated during its first translation (e.g. a miniAOD token). A name leaking from an unrelated query
+    # still changes the order-of-first-appearance numbering and is seen.
+    names = list(_generated) + import_time_names()
+    del n0
     masks = [(str(outdir), "<OUT>"), (os.path.realpath(str(outdir)), "<OUT>")]
     res = {"lines": abort_plan.count if abort_plan is not None else 0,
            "io_calls": [list(c) for c in io_plan.calls] if io_plan is not None else []}
